@@ -824,6 +824,45 @@ def parse_sort_facts():
     return [f"({coq_str(n)}, {'true' if ok else 'false'})" for n, ok in facts]
 
 
+# ------------------------------------------------------------------ skill set-up, one-shot vs gradual (C02 / C03)
+
+def parse_setup_facts():
+    """the gradual constructors build their skills from the same values as the one-shot calculation
+    (the Coq machines assume one initial skill state s0 for both)"""
+    facts = []
+
+    def both(mode):
+        a = norm(strip_test_modules(strip_comments(read(f"src/{mode}/difficulty/mod.rs"))))
+        b = norm(strip_test_modules(strip_comments(read(f"src/{mode}/difficulty/gradual.rs"))))
+        return a, b
+    a, b = both("osu")
+    call = "OsuSkills::new(mods, &scaling_factor, &map_attrs, time_preempt)"
+    facts.append(("osu: one-shot and gradual both build " + call + " once", a.count(call) == 1 and b.count(call) == 1
+                  and a.count("OsuSkills::new(") == 1 and b.count("OsuSkills::new(") == 1))
+    a, b = both("taiko")
+    facts.append(("taiko: TaikoSkills::new(<great hit window>, map.is_convert) on the converted map in both",
+                  a.count("TaikoSkills::new(great_hit_window, map.is_convert)") == 1 and a.count("TaikoSkills::new(") == 1
+                  and b.count("TaikoSkills::new(od_great, map.is_convert)") == 1 and b.count("TaikoSkills::new(") == 1
+                  and re.search(r"let mut map = map\.convert_ref\(GameMode::Taiko, difficulty\.get_mods\(\)\)\?;", b) is not None
+                  and len(re.findall(r"\blet (?:mut )?(\w+) = map\.convert_ref\(", b)) == 1))
+    a, b = both("catch")
+    w1 = "let mut half_catcher_width = Catcher::calculate_catch_width(map_attrs.cs as f32) * 0.5;"
+    w2 = "half_catcher_width *= 1.0 - ((map_attrs.cs as f32 - 5.5).max(0.0) * 0.0625);"
+    mv = "Movement::new(half_catcher_width, clock_rate)"
+
+    def ordered(t):
+        i1, i2, i3, i4 = t.find(w1), t.find(w2), t.find("create_difficulty_objects( clock_rate, half_catcher_width,"), t.find(mv)
+        return 0 <= i1 < i2 < i3 and i2 < i4 and t.count("half_catcher_width *=") == 1 and t.count("Movement::new(") == 1
+    facts.append(("catch: the catcher width is corrected for CS > 5.5 before the difficulty objects and Movement::new use it, in both",
+                  ordered(a) and ordered(b)))
+    a, b = both("mania")
+    call = "Strain::new(total_columns as usize)"
+    tc = "let total_columns = map.cs.round_ties_even().max(1.0);"
+    facts.append(("mania: Strain::new(total_columns as usize) with the same total_columns in both",
+                  a.count(call) == 1 and b.count(call) == 1 and a.count(tc) == 1 and b.count(tc) == 1))
+    return [f"({coq_str(n)}, {'true' if ok else 'false'})" for n, ok in facts]
+
+
 # ------------------------------------------------------------------ bpm comparator (C01)
 
 def parse_bpm_facts():
@@ -854,6 +893,7 @@ def generate():
     lifetimes = parse_lifetimes()
     bpm_facts = parse_bpm_facts()
     sort_facts = parse_sort_facts()
+    setup_facts = parse_setup_facts()
     score_conv = parse_score_conv()
     perf_conv, osu_perf_fields = parse_perf_conv()
     L = []
@@ -927,6 +967,8 @@ def generate():
     A("Definition osu_perf_fields : list string := " + coq_list([coq_str(f) for f in osu_perf_fields]) + ".")
     A("(* the legacy tie re-ordering sort is only applied to slices that are already ordered by start time *)")
     A("Definition sort_facts : list (string * bool) :=\n  " + coq_list(sort_facts).replace("; (", ";\n   (") + ".")
+    A("(* one-shot and gradual calculators start from the same skill state (the s0 of the Coq machines) *)")
+    A("Definition setup_facts : list (string * bool) :=\n  " + coq_list(setup_facts).replace("; (", ";\n   (") + ".")
     A("(* the comparator of Beatmap::bpm that Model/Bpm.v transcribes *)")
     A("Definition bpm_facts : list (string * bool) :=\n  " + coq_list(bpm_facts).replace("; (", ";\n   (") + ".")
     A("(* facts the ownership argument of C11 rests on, each checked against the current source *)")
